@@ -14,34 +14,51 @@ import (
 	"time"
 )
 
-type tierPlan struct {
+// A check is one or more batches, each executed by worker processes of one engine.
+type batch struct {
 	engine   string
-	race     bool
-	runs     int // per batch (hist, sched)
-	coldRuns int
-	level    string
+	race     bool // needs the -race binary
+	deep     bool // needs the binary built against the instrumented copy (implies race)
+	runs     int  // hist, sched: runs in the batch
+	coldRuns int  // sched: one-run-per-process cold starts
+}
+
+type tierPlan struct {
+	batches []batch
+	level   string
+}
+
+func (p tierPlan) engines() string {
+	var es []string
+	for _, b := range p.batches {
+		es = append(es, b.engine)
+	}
+	return strings.Join(es, "+")
 }
 
 func planFor(prop, tier string) (tierPlan, bool) {
 	q := tier != "thorough"
 	switch prop {
 	case "C14":
-		return tierPlan{engine: "wfault", level: "fault_enumeration"}, true
+		return tierPlan{batches: []batch{{engine: "wfault"}}, level: "fault_enumeration"}, true
 	case "C06":
 		if q {
-			return tierPlan{engine: "hist", runs: 24000, level: "exploration"}, true
+			return tierPlan{batches: []batch{{engine: "hist", runs: 160000}}, level: "exploration"}, true
 		}
-		return tierPlan{engine: "hist", runs: 600000, level: "exploration"}, true
+		return tierPlan{batches: []batch{{engine: "hist", runs: 1200000}}, level: "exploration"}, true
 	case "C15":
+		// history clause and per-document clauses: hist; the same heading workload as scripts
+		// of concurrent workers on one shared instance: sched (plain build: only heading ids
+		// are judged here, data races are C07's)
 		if q {
-			return tierPlan{engine: "hist", runs: 24000, level: "exploration"}, true
+			return tierPlan{batches: []batch{{engine: "hist", runs: 160000}, {engine: "sched", runs: 16000}}, level: "exploration"}, true
 		}
-		return tierPlan{engine: "hist", runs: 500000, level: "exploration"}, true
+		return tierPlan{batches: []batch{{engine: "hist", runs: 1000000}, {engine: "sched", runs: 400000}}, level: "exploration"}, true
 	case "C07":
 		if q {
-			return tierPlan{engine: "sched", race: true, runs: 40000, coldRuns: 320, level: "exploration"}, true
+			return tierPlan{batches: []batch{{engine: "sched", race: true, runs: 48000, coldRuns: 480}, {engine: "sched", race: true, deep: true, runs: 4000, coldRuns: 96}}, level: "exploration"}, true
 		}
-		return tierPlan{engine: "sched", race: true, runs: 2400000, coldRuns: 8000, level: "exploration"}, true
+		return tierPlan{batches: []batch{{engine: "sched", race: true, runs: 2400000, coldRuns: 12000}, {engine: "sched", race: true, deep: true, runs: 300000, coldRuns: 3000}}, level: "exploration"}, true
 	}
 	return tierPlan{}, false
 }
@@ -104,6 +121,7 @@ func cmdDrive(args []string) {
 	prop := fs.String("prop", "", "")
 	tier := fs.String("tier", "quick", "")
 	raceBin := fs.String("race-bin", "", "")
+	deepBin := fs.String("deep-bin", "", "")
 	verifDir := fs.String("verif-dir", "/verif", "")
 	jobs := fs.Int("jobs", 16, "")
 	scale := fs.Float64("scale", 1, "multiply run counts (testing)")
@@ -121,25 +139,25 @@ func cmdDrive(args []string) {
 		_ = t
 	}
 	seed := envSeed()
-	plan.runs = int(float64(plan.runs) * *scale)
-	plan.coldRuns = int(float64(plan.coldRuns) * *scale)
+	needRace := false
+	for i := range plan.batches {
+		plan.batches[i].runs = int(float64(plan.batches[i].runs) * *scale)
+		plan.batches[i].coldRuns = int(float64(plan.batches[i].coldRuns) * *scale)
+		needRace = needRace || plan.batches[i].race
+	}
 	if *replayDir == "" {
 		*replayDir = filepath.Join(*verifDir, "replays")
 	}
-	fmt.Printf("goldsim drive property=%s tier=%s engine=%s VERIF_SEED=%d jobs=%d\n", *prop, *tier, plan.engine, seed, *jobs)
+	fmt.Printf("goldsim drive property=%s tier=%s engine=%s VERIF_SEED=%d jobs=%d\n", *prop, *tier, plan.engines(), seed, *jobs)
 	tmp, err := os.MkdirTemp("", "goldsim-drive")
 	if err != nil {
 		fmt.Fprintln(os.Stderr, err)
 		os.Exit(2)
 	}
 	defer os.RemoveAll(tmp)
-	bin := os.Args[0]
-	if plan.race {
-		if *raceBin == "" {
-			fmt.Fprintln(os.Stderr, "need -race-bin")
-			os.Exit(2)
-		}
-		bin = *raceBin
+	if needRace && *raceBin == "" {
+		fmt.Fprintln(os.Stderr, "need -race-bin")
+		os.Exit(2)
 	}
 	known, err := loadKnown(filepath.Join(*verifDir, "known_findings.txt"))
 	if err != nil {
@@ -149,29 +167,43 @@ func cmdDrive(args []string) {
 
 	type job struct {
 		name string
+		bin  string
 		args []string
 		env  []string
 	}
 	var jobsList []job
-	common := []string{"worker", "-engine", plan.engine, "-prop", *prop, "-seed", fmt.Sprint(seed), "-tier", *tier, "-replay-dir", *replayDir}
-	if *noMin {
-		common = append(common, "-no-minimise")
-	}
 	gomax := []string{"1", "4", "16"}
-	for i := 0; i < *jobs; i++ {
-		name := fmt.Sprintf("w%d", i)
-		a := append(append([]string{}, common...), "-shard", fmt.Sprint(i), "-of", fmt.Sprint(*jobs), "-runs", fmt.Sprint(plan.runs), "-out", filepath.Join(tmp, name+".json"))
-		var env []string
-		if plan.race {
-			env = []string{"GORACE=log_path=" + filepath.Join(tmp, name+".race") + " halt_on_error=0 atexit_sleep_ms=0", "GOMAXPROCS=" + gomax[i%3]}
+	for bi, b := range plan.batches {
+		bin := os.Args[0]
+		if b.race {
+			bin = *raceBin
 		}
-		jobsList = append(jobsList, job{name, a, env})
-	}
-	for i := 0; i < plan.coldRuns; i++ {
-		name := fmt.Sprintf("c%d", i)
-		a := append(append([]string{}, common...), "-cold", fmt.Sprint(i), "-out", filepath.Join(tmp, name+".json"))
-		env := []string{"GORACE=log_path=" + filepath.Join(tmp, name+".race") + " halt_on_error=0 atexit_sleep_ms=0", "GOMAXPROCS=" + gomax[i%3]}
-		jobsList = append(jobsList, job{name, a, env})
+		if b.deep {
+			if *deepBin == "" {
+				fmt.Fprintln(os.Stderr, "need -deep-bin")
+				os.Exit(2)
+			}
+			bin = *deepBin
+		}
+		common := []string{"worker", "-engine", b.engine, "-prop", *prop, "-seed", fmt.Sprint(seed), "-tier", *tier, "-replay-dir", *replayDir}
+		if *noMin {
+			common = append(common, "-no-minimise")
+		}
+		for i := 0; i < *jobs; i++ {
+			name := fmt.Sprintf("b%dw%d", bi, i)
+			a := append(append([]string{}, common...), "-shard", fmt.Sprint(i), "-of", fmt.Sprint(*jobs), "-runs", fmt.Sprint(b.runs), "-out", filepath.Join(tmp, name+".json"))
+			var env []string
+			if b.engine == "sched" {
+				env = []string{"GORACE=log_path=" + filepath.Join(tmp, name+".race") + " halt_on_error=0 atexit_sleep_ms=0", "GOMAXPROCS=" + gomax[i%3]}
+			}
+			jobsList = append(jobsList, job{name, bin, a, env})
+		}
+		for i := 0; i < b.coldRuns; i++ {
+			name := fmt.Sprintf("c%d_%d", bi, i)
+			a := append(append([]string{}, common...), "-cold", fmt.Sprint(i), "-out", filepath.Join(tmp, name+".json"))
+			env := []string{"GORACE=log_path=" + filepath.Join(tmp, name+".race") + " halt_on_error=0 atexit_sleep_ms=0", "GOMAXPROCS=" + gomax[i%3]}
+			jobsList = append(jobsList, job{name, bin, a, env})
+		}
 	}
 	t0 := time.Now()
 	total := NewStats()
@@ -189,7 +221,7 @@ func cmdDrive(args []string) {
 		go func(j job) {
 			defer wg.Done()
 			defer func() { <-sem }()
-			cmd := exec.Command(bin, j.args...)
+			cmd := exec.Command(j.bin, j.args...)
 			cmd.Env = append(os.Environ(), j.env...)
 			errf, _ := os.Create(filepath.Join(tmp, j.name+".err"))
 			cmd.Stderr = errf
@@ -253,7 +285,7 @@ func cmdDrive(args []string) {
 	case "C06":
 		must = []string{"probe.rerenders", "probe.stale_tree_renders", "probe.ops_after_failed_op", "probe.same_doc_back_to_back", "op.Convert", "op.PkgConvert", "op.Parse", "op.Render", "op.ParseRender"}
 	case "C15":
-		must = []string{"probe.c15_docs_with_slug_collision", "probe.c15_docs_with_suffix_collision", "probe.ops_after_failed_op", "c15.docs_with_2plus_headings"}
+		must = []string{"probe.c15_docs_with_slug_collision", "probe.c15_docs_with_suffix_collision", "probe.ops_after_failed_op", "c15.docs_with_2plus_headings", "probe.preemptions", "sched.c15_ops_judged"}
 	case "C07":
 		must = []string{"probe.once_contended", "probe.once_blocked", "probe.preemptions", "probe.mid_init_switch", "cold_start_runs", "fresh_instance_runs", "overlap.parse|parse", "overlap.parse|render", "overlap.render|render"}
 	}
@@ -384,9 +416,12 @@ func writeEvidence(verifDir, prop, tier string, seed uint64, plan tierPlan, st *
 		cov["operations"] = ops
 		cov["distinct_configurations"] = cfgs
 	case "C15":
-		cov["rule"] = "exploration: seeded histories of collision-dense heading documents on one long-lived AutoHeadingID instance (safe mode, no attribute syntax); heading ids of every conversion compared with a fresh instance (history clause) and the per-document clauses (present, non-empty, pairwise distinct) evaluated on every output as monitored invariants. Non-trivial = history with >=2 operations; distinct by hash."
+		cov["rule"] = "exploration: (a) seeded histories of collision-dense heading documents on one long-lived AutoHeadingID instance (safe mode, no attribute syntax), other instances used in between, faulted conversions in the odd-numbered runs; heading ids of every conversion compared with a fresh instance (history clause), a sample re-computed in fresh OS processes (package-level state), and the per-document clauses (present, non-empty, pairwise distinct) evaluated on every output as monitored invariants; (b) the same heading workload as scripts of 2..8 goroutines on one shared instance under the deterministic scheduler, ids of every conversion compared with the document converted alone. Non-trivial = history with >=2 operations, or schedule with at least one preemption; distinct by hash."
 		cov["operations"] = ops
 		cov["distinct_configurations"] = cfgs
+		cov["policies"] = policies
+		cov["workers_per_run"] = workers
+		cov["phase_overlap_at_switch_points"] = overlap
 	case "C07":
 		cov["rule"] = "exploration: 2..8 real goroutines run scripts on one shared Markdown (or its Parser / Renderer separately) under -race; the simulator releases exactly one goroutine at a time at every seam call (Context, IDs, Reader, BufWriter, sink) and at the 12 hook sites of the three sync.Once initialisations; who runs next comes from a seeded policy (random, PCT, round-robin, run-to-block, herd) or an explicit decision list. Oracles: per-call equality with the call run alone on a fresh instance, race detector reports (hand-off invisible to the detector), panics, deadlock. Non-trivial = schedule with at least one preemption (switch away from a worker that could continue); distinct by hash of the (worker, site) event sequence, configuration and document sizes."
 		cov["policies"] = policies
